@@ -390,22 +390,48 @@ def registered_modules_come_from_their_file(ctx, rid):
                 "Parser::parse_file_as_module; the declaration `sub_mod` received from the parent file is never cloned into such a "
                 "pair — its text is the parent's")
     n_new = 0
+
+    def fed_by_parse(g, op, depth=0):
+        """the operand derives from Parser::parse_file_as_module — in g, or (g a private helper) at every call site of g"""
+        if op[0] == "k":
+            return False
+        d = g.derived_from(op[1][0])
+        if any(x.name.endswith("parse_file_as_module") for x in d["calls"]):
+            return True
+        if depth >= 2 or g.vis == "pub" or not d["args"]:
+            return False
+        sites = [(src, c) for (src, kind, c) in p.callers().get(g.id, []) if c is not None]
+        if not sites:
+            return False
+        for (src, c) in sites:
+            caller = p.fns[src]
+            if not any(k_ - 1 < len(c.args) and fed_by_parse(caller, c.args[k_ - 1], depth + 1) for k_ in d["args"]):
+                return False
+        return True
+
     for name in ("find_external_module", "find_mods_outside_of_ast"):
         f = p.named(name, within="modules::ModResolver")
         if f is None:
             r.undecidable(rid, "ModResolver::%s not found" % name)
             continue
         subs = [i for i in range(1, f.argc + 1) if "modules::Module" in f.locals[i]]
+        family = [f]
         for c in f.calls():
-            if c.name.endswith("modules::Module::<'a>::new") or c.name.endswith("modules::Module::new"):
-                d = f.derived_from(c.args[2][1][0]) if len(c.args) > 2 and c.args[2][0] != "k" else {"calls": []}
-                from_parse = any(x.name.endswith("parse_file_as_module") for x in d["calls"])
-                n_new += 1
-                r.instance(rid, "%s: Module::new from the parsed file" % name, "ok" if from_parse else "violation", c.loc())
-                if not from_parse:
-                    r.violation(rid, "%s: Module::new not fed by parse_file_as_module" % name,
-                                "a Module registered under a path is built from something else than the items parsed from that path",
-                                [c.loc()])
+            h = p.fns.get(c.resolved or "")
+            if h is not None and h.crate == f.crate and "modules::" in h.id and h.vis != "pub" and h not in family \
+                    and any(cc.name.endswith("modules::Module::<'a>::new") or cc.name.endswith("modules::Module::new") for cc in h.calls()):
+                family.append(h)
+        for g in family:
+            for c in g.calls():
+                if c.name.endswith("modules::Module::<'a>::new") or c.name.endswith("modules::Module::new"):
+                    from_parse = len(c.args) > 2 and fed_by_parse(g, c.args[2])
+                    n_new += 1
+                    r.instance(rid, "%s: Module::new from the parsed file" % name, "ok" if from_parse else "violation", c.loc())
+                    if not from_parse:
+                        r.violation(rid, "%s: Module::new not fed by parse_file_as_module" % name,
+                                    "a Module registered under a path is built from something else than the items parsed from that path",
+                                    [c.loc()])
+        for c in f.calls():
             if c.name.endswith("as std::clone::Clone>::clone") and "modules::Module" in c.name and c.args and c.args[0][0] != "k":
                 d = f.derived_from(c.args[0][1][0])
                 if any(s_ in d["locals"] or s_ in d["args"] for s_ in subs):
@@ -414,7 +440,7 @@ def registered_modules_come_from_their_file(ctx, rid):
                                 "`sub_mod.clone()` (the `mod x;` item of the parent file) is paired with the path of a module file: "
                                 "when nothing else was registered for that path (the file is `#![rustfmt::skip]`, or could not be "
                                 "parsed) the parent's text is written to it", [c.loc()])
-    r.floor(rid, n_new, 3, "Module::new sites in the external-module finders")
+    r.floor(rid, n_new, 1, "Module::new sites in the external-module finders")
 
 
 def ownership_table(ctx, rid):
